@@ -4,39 +4,72 @@
    Model/Reconstruct.v (parts 1-7 = model, part 8 = specification). *)
 From Coq Require Import QArith Ascii String.
 From CKT Require Import Common.Base Model.Observables Model.Grouping Model.Reconstruct Proofs.ReconstructP
+                        Model.ReconstructExt Proofs.ReconstructExtP
                         Model.ReconstructGrouping Proofs.ReconstructGroupingP.
 Close Scope Q_scope.
 Open Scope nat_scope.
 
-(* What E means, unfolded (documentation; by computation): for a V1 outcome o of a group with nb
-   measured bits and an observable with bit mask `mask`, the value is
+(* What E means, unfolded (DOCUMENTATION ONLY, definitional, not registered): for a V1 outcome o of a group
+   with nb measured bits and an observable with bit mask `mask`, the value is
      (-1)^(xor of the bits nb, nb+1, ... of o)  *  (-1)^(xor of the bits j < nb of o with mask bit j set) *)
-Theorem c06_E_def : forall nb mask o,
+Remark c06_E_def : forall nb mask o,
   outcome_value_v1 nb mask o
   = (sgn (xor_list (map (bit o) (seq nb (nbits_of o - nb))))
      * sgn (xor_list (map (fun j => bit o j && bit mask j) (seq 0 nb))))%Z.
 Proof. reflexivity. Qed.
 
+(* ... and THIS is the theorem about the code: _process_outcome (popcount / land / shiftr model) returns,
+   entry by entry, that declarative value *)
+Theorem c06_process_outcome_spec : forall pyint0 c k o, outcome_to_int pyint0 k = Some o ->
+  exists v, process_outcome pyint0 c k = Ok v /\ length v = length (cog_masks c) /\
+    forall n, n < length (cog_masks c) ->
+      nth n v 0%Z = outcome_value_v1 (num_meas_bits c) (nth n (cog_masks c) 0%N) o.
+Proof. exact process_outcome_spec. Qed.
+
 (* MAIN: for any number of partitions, groups, observables, coefficients, outcomes and any bit
    widths, if the shapes match (result count = #coefficients * #groups per partition, every
-   partition has nobs sub-observables, lookup locations exist) and every V1 key denotes the integer
+   partition has nobs sub-observables, every lookup list is NON-EMPTY and its locations exist --
+   np.mean([]) is nan, the model's Qmean [] is 0, so empty lists are excluded) and every V1 key denotes the integer
    `den k`, the reconstruction returns, for every observable k,
        sum_i coeff_i * prod_partitions E_{i,partition}[k]      (up to equality of rationals). *)
 Theorem c06_estimator : forall pyint0 den nobs coeffs pds,
   (forall pd, In pd pds -> data_len (snd pd) = length coeffs * length (pgroups (fst pd))) ->
-  (forall pd, In pd pds -> length (plookup (fst pd)) = nobs /\ locs_ok (fst pd)) ->
+  (forall pd, In pd pds -> length (plookup (fst pd)) = nobs /\ locs_ok_ne (fst pd)) ->
   (forall pd k, In pd pds -> In k (keys_of (snd pd)) -> outcome_to_int pyint0 k = Some (den k)) ->
   res_Qeq (reconstruct_parts pyint0 nobs coeffs pds)
           (Ok (map (estimator den coeffs pds) (seq 0 nobs))).
-Proof. exact estimator_full. Qed.
+Proof. exact estimator_ne. Qed.
 
-(* V1 = V2: replacing every V2 partition by the quasi-distributions that describe the same shots
-   (key qpd * 2^nb + obs, quasi-probability 1/shots) gives literally the same result. *)
+(* V1 = V2, LIST FORM: replacing every V2 partition by the list with ONE ENTRY PER SHOT (key
+   qpd * 2^nb + obs, weight 1/shots; repeated shots stay repeated entries, which no dict can hold)
+   gives literally the same result.  The dict-shaped statement is c06_v1_v2_dict below. *)
 Theorem c06_v1_v2 : forall pyint0 nobs coeffs pds,
   (forall pd, In pd pds -> obs_in_range (fst pd) (snd pd)) ->
   reconstruct_parts pyint0 nobs coeffs (map (fun pd => (fst pd, pack (fst pd) (snd pd))) pds)
   = reconstruct_parts pyint0 nobs coeffs pds.
 Proof. exact v1_v2_full. Qed.
+
+(* merging V1 entries whose keys denote the same integer into one entry with the summed weight (what a
+   dict / QuasiDistribution holds) does not change the result; the merged data is dict-shaped *)
+Theorem c06_v1_merge : forall pyint0 nobs coeffs pds,
+  (forall pd, In pd pds -> data_len (snd pd) = length coeffs * length (pgroups (fst pd))) ->
+  (forall pd, In pd pds -> length (plookup (fst pd)) = nobs /\ locs_ok_ne (fst pd)) ->
+  (forall pd k, In pd pds -> In k (keys_of (snd pd)) -> outcome_to_int pyint0 k <> None) ->
+  res_Qeq (reconstruct_parts pyint0 nobs coeffs (map (merge_pd pyint0) pds)) (reconstruct_parts pyint0 nobs coeffs pds) /\
+  forall pd, In pd (map (merge_pd pyint0) pds) -> dict_shaped (snd pd).
+Proof. exact v1_merge_ne. Qed.
+
+(* V1 = V2, DICT FORM: the V1 twin with pairwise distinct integer keys and weight (number of shots with
+   that outcome)/shots -- merge of pack -- gives the same values as the V2 data *)
+Theorem c06_v1_v2_dict : forall pyint0 nobs coeffs pds,
+  (forall pd, In pd pds -> data_len (snd pd) = length coeffs * length (pgroups (fst pd))) ->
+  (forall pd, In pd pds -> length (plookup (fst pd)) = nobs /\ locs_ok_ne (fst pd)) ->
+  (forall pd k, In pd pds -> In k (keys_of (snd pd)) -> outcome_to_int pyint0 k <> None) ->
+  (forall pd, In pd pds -> obs_in_range (fst pd) (snd pd)) ->
+  let twin := map (fun pd => merge_pd pyint0 (fst pd, pack (fst pd) (snd pd))) pds in
+  res_Qeq (reconstruct_parts pyint0 nobs coeffs twin) (reconstruct_parts pyint0 nobs coeffs pds) /\
+  forall pd, In pd twin -> dict_shaped (snd pd) /\ exists q, snd pd = DV1 q.
+Proof. exact v1_v2_dict_ne. Qed.
 
 (* the split used by V1 inverts the packing for ANY register widths *)
 Theorem c06_split_pack : forall n obs qpd : N, (obs < 2 ^ n)%N ->
@@ -76,15 +109,26 @@ Theorem c06_keys_same_result : forall pyint0 nobs coeffs pds pds',
   reconstruct_parts pyint0 nobs coeffs pds = reconstruct_parts pyint0 nobs coeffs pds'.
 Proof. exact reconstruct_parts_keys. Qed.
 
-(* TOTALITY: whatever the data, the loops never crash; they return a value, or refuse, and a refusal
-   has one of exactly two causes: a result count that does not match, or an outcome key that
-   _outcome_to_int rejects. *)
-Theorem c06_total : forall pyint0 nobs coeffs pds,
+(* REFUSAL CAUSES: the loops return a value or refuse, and a refusal has one of exactly two causes: a
+   result count that does not match, or an outcome key that _outcome_to_int rejects.  (That the MODEL
+   never yields Crashed here is by construction -- nth defaults, truncating vmul -- and says nothing
+   about Python on ill-shaped lookups, where it raises IndexError; those inputs are excluded by the
+   shape premises of c06_estimator.) *)
+Theorem c06_refusal_causes : forall pyint0 nobs coeffs pds,
   (exists v, reconstruct_parts pyint0 nobs coeffs pds = Ok v) \/
   (reconstruct_parts pyint0 nobs coeffs pds = Refused /\
      ((exists pd, In pd pds /\ data_len (snd pd) <> length coeffs * length (pgroups (fst pd))) \/
       (exists pd k, In pd pds /\ In k (keys_of (snd pd)) /\ outcome_to_int pyint0 k = None))).
 Proof. exact reconstruct_parts_total. Qed.
+
+(* a count mismatch is refused by the PUBLIC function in both call forms, whatever else holds *)
+Theorem c06_public_count_refused : forall pyint0 coeffs,
+  (forall p d, data_len d <> length coeffs * length (pgroups p) ->
+     reconstruct pyint0 (RLeaf d) coeffs (OList p) = Refused) /\
+  (forall ps m, (exists p d, In p ps /\ assoc m (plabel p) = Some d /\
+                             data_len d <> length coeffs * length (pgroups p)) ->
+     reconstruct pyint0 (RMap m) coeffs (OMap ps) = Refused).
+Proof. exact public_count_refused. Qed.
 
 (* FROM PAULI LETTERS (the model is not fed the implementation's own masks / lookup):
    the measured qubits are the qubits on which the group's general observable acts, ascending; *)
@@ -130,11 +174,11 @@ Proof. exact keys_parser. Qed.
    decidable "the parser accepts every key" *)
 Theorem c06_estimator_parser : forall nobs coeffs pds,
   (forall pd, In pd pds -> data_len (snd pd) = length coeffs * length (pgroups (fst pd))) ->
-  (forall pd, In pd pds -> length (plookup (fst pd)) = nobs /\ locs_ok (fst pd)) ->
+  (forall pd, In pd pds -> length (plookup (fst pd)) = nobs /\ locs_ok_ne (fst pd)) ->
   (forall pd k, In pd pds -> In k (keys_of (snd pd)) -> outcome_to_int pyint0_ref k <> None) ->
   res_Qeq (reconstruct_parts pyint0_ref nobs coeffs pds)
           (Ok (map (estimator ref_den coeffs pds) (seq 0 nobs))).
-Proof. exact estimator_parser. Qed.
+Proof. exact estimator_parser_ne. Qed.
 
 (* (b) the V2 path averages with the shot count of THE PUB BEING PROCESSED: the vector accumulated for
        experiment idx is (sum over that pub's shots of the +-1 values) / (number of shots of that pub) *)
@@ -151,7 +195,7 @@ Proof. exact experiment_v2_own_shots. Qed.
 Theorem c06_public_estimator : forall pyint0 den m coeffs p0 ps,
   (forall l, In l (map plabel (p0 :: ps)) <-> In l (map fst m)) ->
   (forall p x, In p (p0 :: ps) -> In x (pphases p) -> x = 0) ->
-  (forall p, In p (p0 :: ps) -> length (plookup p) = length (plookup p0) /\ locs_ok p) ->
+  (forall p, In p (p0 :: ps) -> length (plookup p) = length (plookup p0) /\ locs_ok_ne p) ->
   (forall p d, In p (p0 :: ps) -> assoc m (plabel p) = Some d ->
      data_len d = length coeffs * length (pgroups p) /\
      forall k, In k (keys_of d) -> outcome_to_int pyint0 k = Some (den k)) ->
@@ -159,7 +203,7 @@ Theorem c06_public_estimator : forall pyint0 den m coeffs p0 ps,
     (forall pd, In pd pds -> assoc m (plabel (fst pd)) = Some (snd pd)) /\
     res_Qeq (reconstruct pyint0 (RMap m) coeffs (OMap (p0 :: ps)))
             (Ok (map (estimator den coeffs pds) (seq 0 (length (plookup p0))))).
-Proof. exact public_estimator. Qed.
+Proof. exact public_estimator_ne. Qed.
 
 (* (d) BRIDGE TO C11: the groups / measured-bit counts / bitmasks / lookup that C11's model of
        ObservableCollection (most_general_observable, __post_init__, the lookup loop; any answer of
@@ -172,7 +216,7 @@ Theorem c06_grouping_bridge : forall label subobs o cogs lk,
   = part_of_letters label (map pphase subobs) (map lgroup_of_c11 cogs) (map plets subobs).
 Proof. exact collection_bridge. Qed.
 
-(* ... so the shape hypotheses of c06_estimator are theorems, not monitored contracts, for them *)
+(* ... so the location/length hypotheses of c06_estimator are theorems, not monitored contracts, for them *)
 Theorem c06_grouping_shape : forall label subobs o cogs lk,
   collection subobs o = Ok (cogs, lk) ->
   (forall p, In p subobs -> pphase p = 0) ->
@@ -180,9 +224,17 @@ Theorem c06_grouping_shape : forall label subobs o cogs lk,
   locs_ok (part_of_collection label subobs (cogs, lk)).
 Proof. exact collection_shape. Qed.
 
-(* ... and "value = the defined estimator" and "V1 = V2" hold for the masks the grouping code really
-   produces, with the executable key parser: the only hypotheses left are the count match, "every
-   key is accepted" and (for V1 = V2) that every observable-register value fits its register *)
+(* ... and, when the answer of the unique()/group_commuting oracle satisfies C11's grouping_contract (every
+   observable is in some group), no lookup list is empty: the mean is never 0/0 *)
+Theorem c06_lookup_nonempty : forall label subobs o cogs lk,
+  collection subobs o = Ok (cogs, lk) -> grouping_contract subobs o = true ->
+  forall locs, In locs (plookup (part_of_collection label subobs (cogs, lk))) -> locs <> [].
+Proof. exact collection_lookup_nonempty. Qed.
+
+(* ... and "value = the defined estimator" and "V1 (dict) = V2" hold for the masks the grouping code
+   produces (oracle answer within the grouping contract), with the executable key parser: the
+   hypotheses left are the count match, "every key is accepted" and (for V1 = V2) that every
+   observable-register value fits its register *)
 Theorem c06_estimator_grouping : forall nobs coeffs pds,
   (forall pd, In pd pds -> from_collection nobs pd) ->
   (forall pd, In pd pds -> data_len (snd pd) = length coeffs * length (pgroups (fst pd))) ->
@@ -196,11 +248,26 @@ Theorem c06_v1_v2_estimator_grouping : forall nobs coeffs pds,
   (forall pd, In pd pds -> data_len (snd pd) = length coeffs * length (pgroups (fst pd))) ->
   (forall pd k, In pd pds -> In k (keys_of (snd pd)) -> outcome_to_int pyint0_ref k <> None) ->
   (forall pd, In pd pds -> obs_in_range (fst pd) (snd pd)) ->
-  reconstruct_parts pyint0_ref nobs coeffs (map (fun pd => (fst pd, pack (fst pd) (snd pd))) pds)
-  = reconstruct_parts pyint0_ref nobs coeffs pds /\
-  res_Qeq (reconstruct_parts pyint0_ref nobs coeffs (map (fun pd => (fst pd, pack (fst pd) (snd pd))) pds))
+  let twin := map (fun pd => merge_pd pyint0_ref (fst pd, pack (fst pd) (snd pd))) pds in
+  res_Qeq (reconstruct_parts pyint0_ref nobs coeffs twin) (reconstruct_parts pyint0_ref nobs coeffs pds) /\
+  (forall pd, In pd twin -> dict_shaped (snd pd) /\ exists q, snd pd = DV1 q) /\
+  res_Qeq (reconstruct_parts pyint0_ref nobs coeffs pds)
           (Ok (map (estimator ref_den coeffs pds) (seq 0 nobs))).
 Proof. exact v1_v2_estimator_grouping. Qed.
+
+(* the PUBLIC function (dict form) on partitions built by the grouping code, executable parser: phases,
+   lookup shape and non-emptiness are derived; left: equal label sets, counts, accepted keys *)
+Theorem c06_public_estimator_grouping : forall m coeffs p0 ps,
+  (forall l, In l (map plabel (p0 :: ps)) <-> In l (map fst m)) ->
+  (forall p, In p (p0 :: ps) -> part_from_collection (length (plookup p0)) p) ->
+  (forall p d, In p (p0 :: ps) -> assoc m (plabel p) = Some d ->
+     data_len d = length coeffs * length (pgroups p) /\
+     forall k, In k (keys_of d) -> outcome_to_int pyint0_ref k <> None) ->
+  exists pds, map fst pds = p0 :: ps /\
+    (forall pd, In pd pds -> assoc m (plabel (fst pd)) = Some (snd pd)) /\
+    res_Qeq (reconstruct pyint0_ref (RMap m) coeffs (OMap (p0 :: ps)))
+            (Ok (map (estimator ref_den coeffs pds) (seq 0 (length (plookup p0))))).
+Proof. exact public_estimator_grouping. Qed.
 
 (* the contract assumed of int(s, 0) is satisfiable: the reference instance used by the
    correspondence check satisfies it *)
@@ -278,12 +345,13 @@ Proof. vm_compute. reflexivity. Qed.
 (* the instance satisfies every hypothesis of c06_estimator *)
 Example c06_ex_hyps :
   (forall pd, In pd ex_pds -> data_len (snd pd) = length ex_coeffs * length (pgroups (fst pd))) /\
-  (forall pd, In pd ex_pds -> length (plookup (fst pd)) = 2 /\ locs_ok (fst pd)) /\
+  (forall pd, In pd ex_pds -> length (plookup (fst pd)) = 2 /\ locs_ok_ne (fst pd)) /\
   (forall pd k, In pd ex_pds -> In k (keys_of (snd pd)) -> outcome_to_int pyint0_ref k = Some (ex_den k)).
 Proof.
   split; [|split].
   - intros pd [<-|[<-|[]]]; reflexivity.
-  - intros pd [<-|[<-|[]]]; (split; [reflexivity|]); intros locs m n HL HM; cbn in HL;
+  - intros pd [<-|[<-|[]]]; (split; [reflexivity|]); (split; [|intros locs HL; cbn in HL;
+      repeat (destruct HL as [<-|HL]; [discriminate|]); destruct HL]); intros locs m n HL HM; cbn in HL;
       repeat (destruct HL as [<-|HL]; [cbn in HM; repeat (destruct HM as [HM|HM]; [inversion HM; subst; cbn; lia|]); destruct HM|]);
       destruct HL.
   - intros pd k [<-|[<-|[]]] HK; cbn in HK; [|destruct HK].
@@ -341,7 +409,8 @@ Definition exCd : pdata :=
 Example c06_ex_from_collection : from_collection 4 (exC, exCd).
 Proof.
   exists 5, exS, exO. destruct (collection exS exO) as [coll| |] eqn:E; try (vm_compute in E; discriminate).
-  exists coll. split; [reflexivity|]. split; [intros p [<-|[<-|[<-|[<-|[]]]]]; reflexivity|]. split; [reflexivity|].
+  exists coll. split; [reflexivity|]. split; [vm_compute; reflexivity|].
+  split; [intros p [<-|[<-|[<-|[<-|[]]]]]; reflexivity|]. split; [reflexivity|].
   cbn [fst]. vm_compute in E. inversion E. reflexivity.
 Qed.
 
@@ -366,12 +435,69 @@ Example c06_ex_own_shots :
 Proof. split; vm_compute; reflexivity. Qed.
 
 Example c06_ex_grouping_value :
-  reconstruct_parts pyint0_ref 4 ex_coeffs [(exC, exCd)]
-  = reconstruct_parts pyint0_ref 4 ex_coeffs [(exC, pack exC exCd)] /\
   list_beq Qeq_bool (map (estimator ref_den ex_coeffs [(exC, exCd)]) (seq 0 4))
     (match reconstruct_parts pyint0_ref 4 ex_coeffs [(exC, exCd)] with Ok v => v | _ => [] end) = true /\
   is_ok (reconstruct_parts pyint0_ref 4 ex_coeffs [(exC, exCd)]) = true.
 Proof. repeat split; vm_compute; reflexivity. Qed.
+
+(* REPEATED SHOTS: 4 shots, two of them equal.  pack keeps two entries (KInt 3, 1/4); the dict-shaped twin
+   has (KInt 3, 1/2).  One group with one measured bit, one observable, one coefficient. *)
+Definition exR : part := mkPart 0 [0] [(1, [1%N])] [[(0, 0)]].
+Definition exRd : pdata := DV2 [[([1], [1]); ([1], [1]); ([0], [1]); ([0], [0])]]%N.
+Example c06_ex_repeated_shots :
+  pack exR exRd = DV1 [[(KInt 3, Qdiv (Qmake 1 1) (Qnat 4)); (KInt 3, Qdiv (Qmake 1 1) (Qnat 4));
+                        (KInt 2, Qdiv (Qmake 1 1) (Qnat 4)); (KInt 0, Qdiv (Qmake 1 1) (Qnat 4))]]%N /\
+  (match merge_data pyint0_ref (pack exR exRd) with
+   | DV1 [[(KInt 3, a); (KInt 2, b); (KInt 0, c)]] => Qeq_bool a (Qmake 1 2) && Qeq_bool b (Qmake 1 4) && Qeq_bool c (Qmake 1 4)
+   | _ => false end)%N = true /\
+  reconstruct_parts pyint0_ref 1 [Qmake 1 1] [(exR, exRd)] = Ok [Qmake 1 2] /\
+  reconstruct_parts pyint0_ref 1 [Qmake 1 1] [(exR, DV1 [[(KInt 3, Qmake 1 2); (KInt 2, Qmake 1 4); (KInt 0, Qmake 1 4)]]%N)] = Ok [Qmake 1 2] /\
+  reconstruct_parts pyint0_ref 1 [Qmake 1 1] [merge_pd pyint0_ref (exR, pack exR exRd)] = Ok [Qmake 1 2].
+Proof. repeat split; vm_compute; reflexivity. Qed.
+
+Example c06_ex_repeated_hyps :
+  (forall pd, In pd [(exR, exRd)] -> data_len (snd pd) = length [Qmake 1 1] * length (pgroups (fst pd))) /\
+  (forall pd, In pd [(exR, exRd)] -> length (plookup (fst pd)) = 1 /\ locs_ok_ne (fst pd)) /\
+  (forall pd k, In pd [(exR, exRd)] -> In k (keys_of (snd pd)) -> outcome_to_int pyint0_ref k <> None) /\
+  (forall pd, In pd [(exR, exRd)] -> obs_in_range (fst pd) (snd pd)).
+Proof.
+  split; [intros pd [<-|[]]; reflexivity|]. split.
+  - intros pd [<-|[]]. split; [reflexivity|]. split.
+    + intros locs m n [<-|[]] [HM|[]]. inversion HM; subst. cbn. lia.
+    + intros locs [<-|[]]. discriminate.
+  - split; [intros pd k [<-|[]] []|].
+    intros pd [<-|[]] idx s Hidx Hs. cbn in Hidx. destruct idx as [|idx]; [|lia].
+    cbn in Hs. repeat (destruct Hs as [<-|Hs]; [reflexivity|]). destruct Hs.
+Qed.
+
+(* the empty lookup list that the strengthened premise excludes: the model says 0 where numpy says nan *)
+Example c06_ex_empty_lookup_excluded :
+  reconstruct_parts pyint0_ref 1 [Qmake 1 1] [(mkPart 0 [0] [(1, [1%N])] [[]], DV2 [[([1], [1])]]%N)] = Ok [Qmake 0 1] /\
+  ~ locs_ok_ne (mkPart 0 [0] [(1, [1%N])] [[]]).
+Proof. split; [vm_compute; reflexivity|]. intros [_ H]. apply (H []); [left|]; reflexivity. Qed.
+
+(* the four hypotheses of c06_public_estimator for a results dict in the other order *)
+Example c06_ex_public_hyps :
+  let m := [(1, exBd); (0, exAd)] in
+  (forall l, In l (map plabel [exA; exB]) <-> In l (map fst m)) /\
+  (forall p x, In p [exA; exB] -> In x (pphases p) -> x = 0) /\
+  (forall p, In p [exA; exB] -> length (plookup p) = length (plookup exA) /\ locs_ok_ne p) /\
+  (forall p d, In p [exA; exB] -> assoc m (plabel p) = Some d ->
+     data_len d = length ex_coeffs * length (pgroups p) /\
+     forall k, In k (keys_of d) -> outcome_to_int pyint0_ref k = Some (ex_den k)).
+Proof.
+  destruct c06_ex_hyps as [H1 [H2 H3]]. cbn zeta. split; [|split; [|split]].
+  - intros l. cbn. intuition.
+  - intros p x [<-|[<-|[]]] Hx; cbn in Hx; intuition.
+  - intros p [<-|[<-|[]]]; [apply (H2 (exA, exAd)); left; reflexivity|apply (H2 (exB, exBd)); right; left; reflexivity].
+  - intros p d [<-|[<-|[]]] Hd; cbn in Hd; inversion Hd; subst d.
+    + split; [apply (H1 (exA, exAd)); left; reflexivity|]. intros k Hk. apply (H3 (exA, exAd) k); [left; reflexivity|exact Hk].
+    + split; [apply (H1 (exB, exBd)); right; left; reflexivity|]. intros k Hk. apply (H3 (exB, exBd) k); [right; left; reflexivity|exact Hk].
+Qed.
+
+Example c06_ex_public_count_refused :
+  reconstruct pyint0_ref (RMap [(1, exBd); (0, exAd)]) [Qmake 1 2] (OMap [exA; exB]) = Refused.
+Proof. reflexivity. Qed.
 
 (* the public wrapper on a results dict ordered differently from the observables dict *)
 Example c06_ex_public :
@@ -382,7 +508,7 @@ Example c06_ex_count_refused :
   reconstruct_parts pyint0_ref 2 [Qmake 1 2] ex_pds = Refused.
 Proof. reflexivity. Qed.
 
-Print Assumptions c06_E_def.
+Print Assumptions c06_process_outcome_spec.
 Print Assumptions c06_estimator.
 Print Assumptions c06_v1_v2.
 Print Assumptions c06_split_pack.
@@ -399,7 +525,12 @@ Print Assumptions c06_grouping_bridge.
 Print Assumptions c06_grouping_shape.
 Print Assumptions c06_estimator_grouping.
 Print Assumptions c06_v1_v2_estimator_grouping.
-Print Assumptions c06_total.
+Print Assumptions c06_refusal_causes.
+Print Assumptions c06_public_count_refused.
+Print Assumptions c06_v1_merge.
+Print Assumptions c06_v1_v2_dict.
+Print Assumptions c06_lookup_nonempty.
+Print Assumptions c06_public_estimator_grouping.
 Print Assumptions c06_measured_qubits.
 Print Assumptions c06_mask_bits.
 Print Assumptions c06_lookup.
